@@ -697,6 +697,10 @@ func stateBeginArrayItemOrEmpty(s *Scanner, c byte) state {
 	if c == ']' {
 		return stateFoundArrayEnd(s)
 	}
+	if bytes.IsSpace(c) {
+		// Blank space between the brackets is not an item: `[ ]` is an empty array.
+		return scanContinue
+	}
 	if s.annotation == annotationNone {
 		s.context.ArrayHasItem = true
 	}
